@@ -172,7 +172,14 @@ class Fn:
                 for t in (n.targets if isinstance(n, ast.Assign) else [n.target] if isinstance(n, (ast.AnnAssign, ast.AugAssign, ast.For)) else []):
                     bound |= {m.id for m in ast.walk(t) if isinstance(m, ast.Name)}
             used = []
+            ann = set()   # names that occur in annotations only name types: they are never evaluated into the result
+            for n in ast.walk(self.fn):
+                for sub in ([n.annotation] if isinstance(n, (ast.AnnAssign, ast.arg)) and n.annotation is not None else []) + \
+                           ([n.returns] if isinstance(n, ast.FunctionDef) and n.returns is not None else []):
+                    ann |= {id(m) for m in ast.walk(sub)}
             for n in own_nodes(self.fn):
+                if id(n) in ann:
+                    continue
                 if isinstance(n, ast.Name) and isinstance(n.ctx, ast.Load) and n.id in bound and n.id not in self.params \
                         and n.id not in self.locals and n.id not in used:
                     used.append(n.id)
